@@ -65,17 +65,13 @@ example : sod.Admissible ∧ sod.Distinct ∧ (0:ℝ) < 3/10 := ⟨sod_admissibl
 /-! ### the atom `px`: `X_call px = 0` makes the two one-sided star velocities agree -/
 
 theorem scs_ux (q : Prob) (px : ℝ) (h : SCS q px = 0) :
-    q.ul + -1 * shock px q.pl q.rl 0 q.gl = q.ur + 1 * shock px q.pr q.rr 0 q.gr := by
-  rw [SCS_eq, shock_u px q.pr, shock_u px q.pl] at h; linear_combination -h
+    q.ul + -1 * shock px q.pl q.rl 0 q.gl = q.ur + 1 * shock px q.pr q.rr 0 q.gr := Riem.scs_ux q px h
 theorem scr_ux (q : Prob) (px : ℝ) (h : SCR q px = 0) :
-    q.ul + -1 * shock px q.pl q.rl 0 q.gl = q.ur + -1 * rare px q.pr q.rr 0 q.gr := by
-  rw [SCR_eq, rare_u px q.pr, shock_u px q.pl] at h; linear_combination h
+    q.ul + -1 * shock px q.pl q.rl 0 q.gl = q.ur + -1 * rare px q.pr q.rr 0 q.gr := Riem.scr_ux q px h
 theorem rcs_ux (q : Prob) (px : ℝ) (h : RCS q px = 0) :
-    q.ul + 1 * rare px q.pl q.rl 0 q.gl = q.ur + 1 * shock px q.pr q.rr 0 q.gr := by
-  rw [RCS_eq, shock_u px q.pr, rare_u px q.pl] at h; linear_combination -h
+    q.ul + 1 * rare px q.pl q.rl 0 q.gl = q.ur + 1 * shock px q.pr q.rr 0 q.gr := Riem.rcs_ux q px h
 theorem rcr_ux (q : Prob) (px : ℝ) (h : RCR q px = 0) :
-    q.ul + 1 * rare px q.pl q.rl 0 q.gl = q.ur + -1 * rare px q.pr q.rr 0 q.gr := by
-  rw [RCR_eq, rare_u px q.pr, rare_u px q.pl] at h; linear_combination h
+    q.ul + 1 * rare px q.pl q.rl 0 q.gl = q.ur + -1 * rare px q.pr q.rr 0 q.gr := Riem.rcr_ux q px h
 
 /-! ### the assembled solution (hand model over ℝ): every wave of every pattern -/
 
